@@ -29,7 +29,8 @@ LEAN_TARGETS = ["Eliot.Properties.C10"]
 AUDIT = "Eliot/Audit/C10.lean"
 THEOREMS = [
     "EJ.C10.encode_no_newline", "EJ.C10.encode_is_object", "EJ.C10.encode_valid_utf8",
-    "EJ.C10.decode_encode", "EJ.C10.nonfinite_to_null", "EJ.C10.rich_types_documented",
+    "EJ.C10.nonfinite_to_null", "EJ.C10.rich_types_documented",
+    "EJ.C10.decode_encode", "EJ.C10.native_encodes", "EJ.C10.encodes_native",
     "EJ.C10.one_line_per_message", "EJ.C10.no_partial_between_calls", "EJ.C10.bytes_text_same",
     "EJ.C10.line_faithful",
 ]
